@@ -15,6 +15,9 @@
    Abstract characters (small integers) carry a byte width and a lower-case image:
      1 'a'   2 'A'   3 U+0130 (2 bytes, lower-cases to 'i': a length-changing fold)   4 'i'   5 'b'
      10+d = the ASCII digit d.
+     60 newline, 61 double quote, 62 backslash: one byte each, always written as a JSON escape (2 bytes) in the event;
+            a string value may moreover be written all-escaped (EscStr: U+00E9 as \u00e9, U+1F600 as a surrogate pair),
+            so that the decoder's node starts in its ESCAPED form; the value is the same string.
      40.. = multi-byte characters without case, given by their UTF-8 bytes (CharBytes): pairs that share a lead
             byte (e-acute / e-grave, EURO / RUBLE / TRADE MARK, Cyrillic io / hard sign), that share only a
             continuation byte (e-acute / COPYRIGHT), and two 4-byte characters.
@@ -35,6 +38,8 @@ CONSTANTS Chars,       \* letters used in rule values and string fields (subset 
                                \* "shift applied twice", which TLC must reject: DoIf_mutant_shift.cfg)
           M_ContainsAnyRunes,  \* mechanism: contains_any compares CHARACTERS (bytes.ContainsAny is rune based); FALSE =
                                \* mutant "256-entry byte table", which TLC must reject: DoIf_mutant_bytetable.cfg
+          M_LenOfValue,        \* mechanism: byte_len_cmp of a string field measures its VALUE, not the escaped text the
+                               \* decoder still holds (FALSE = mutant "escaped length": DoIf_mutant_esclen.cfg)
           UChars,              \* the characters of part U (subset of {1} \cup 40..50)
           UMaxData,            \* maximal length of a string field in part U
           PartsOn              \* the parts of the case space to explore ({} = all)
@@ -103,6 +108,7 @@ Abs     == [k |-> "abs"]
 Nul     == [k |-> "null"]
 Num(n)  == [k |-> "num", n |-> n]
 Str(s)  == [k |-> "str", s |-> s]
+EscStr(s) == [k |-> "str", s |-> s, esc |-> TRUE]   \* the same value, written with \uXXXX escapes in the event text
 Obj(fs) == [k |-> "obj", fs |-> fs]          \* fs: sequence of [name, v]
 Arr(xs) == [k |-> "arr", xs |-> xs]
 Fld(nm, v) == [name |-> nm, v |-> v]
@@ -297,6 +303,14 @@ ImplStrOp(l, fv) ==
               LET t == IF DLen(data) > maxLen THEN SubSeq(data, Len(data) - maxLen + 1, Len(data)) ELSE NB(data) IN
               \E i \in 1..Len(cur) : StrHasSuffix(low(t), NB(cur[i]))
 
+\* length of the escaped text of a string value as the decoder first holds it (without the quotes)
+RawLen(fv) ==
+  LET esc == "esc" \in DOMAIN fv /\ fv.esc IN
+  SumSeq([i \in 1..Len(fv.s) |->
+            IF fv.s[i] \in {60, 61, 62} THEN 2
+            ELSE IF esc /\ fv.s[i] \in MultiByte THEN (IF Width(fv.s[i]) = 4 THEN 12 ELSE 6)
+            ELSE Width(fv.s[i])])
+
 \* "?" = the transcription does not predict (only where the documentation does not decide either)
 ImplLeaf(l, fv) ==
   CASE l.op \in StrOps -> TV(ImplStrOp(l, fv))
@@ -308,7 +322,7 @@ ImplLeaf(l, fv) ==
     [] l.op = "byte_len_cmp" ->
          ( CASE fv.k = "abs"  -> "F"
              [] fv.k = "null" -> TV(Cmp(l.cmp, 4, l.value))                   \* len("null")
-             [] fv.k = "str"  -> TV(Cmp(l.cmp, ByteLen(fv.s), l.value))
+             [] fv.k = "str"  -> TV(Cmp(l.cmp, IF M_LenOfValue THEN ByteLen(fv.s) ELSE RawLen(fv), l.value))   \* len(node.AsString())
              [] fv.k = "num"  -> TV(Cmp(l.cmp, Len(NumRepr(fv.n)), l.value))
              [] fv.k \in {"obj", "arr"} -> TV(Cmp(l.cmp, EncLen(fv, D_EmptyContainerLen), l.value)) )
     [] l.op = "array_len_cmp" ->
@@ -468,20 +482,44 @@ RulesU  == {[op |-> "contains_any", path |-> PF, cs |-> c, vals |-> <<v>>] : c \
                    o \in {"contains", "prefix", "suffix"}, v \in UStr1, w \in UStr1}
 EventsU == SetToSeq(EvOf({Str(s) : s \in Strs(UChars, UMaxData)} \cup {Abs, Nul}))
 
+\* part E: string values that reach the checker in their ESCAPED form (decoded from JSON text for every evaluation):
+\* byte length is that of the value; and, since field ops unescape the node in place, every binary and / or over a
+\* length leaf and a field leaf on the same field is evaluated in both operand orders
+EChars  == {1, 60, 61, 62, 40, 49}
+EStr1   == Strs(EChars, 1) \ {<<>>}
+HasMB(x) == \E i \in 1..Len(x) : x[i] \in MultiByte
+ELen    == {[op |-> "byte_len_cmp", path |-> PF, cmp |-> c, value |-> n] : c \in CmpOps, n \in 0..8}
+ELenFew == {[op |-> "byte_len_cmp", path |-> PF, cmp |-> c, value |-> n] : c \in {"eq", "lt", "ge"}, n \in {1, 2, 3, 4, 6}}
+EFld    == {[op |-> o, path |-> PF, cs |-> c, vals |-> <<v>>] :
+              o \in {"equal", "contains", "prefix", "suffix", "contains_any"}, c \in {0, 1}, v \in EStr1}
+EFldFew == {[op |-> "contains", path |-> PF, cs |-> 1, vals |-> <<<<1>>>>],
+            [op |-> "contains", path |-> PF, cs |-> 1, vals |-> <<<<60>>>>],
+            [op |-> "equal", path |-> PF, cs |-> 1, vals |-> <<<<40>>>>],
+            [op |-> "prefix", path |-> PF, cs |-> 0, vals |-> <<<<62>>>>],
+            [op |-> "suffix", path |-> PF, cs |-> 1, vals |-> <<<<49>>>>],
+            [op |-> "contains_any", path |-> PF, cs |-> 1, vals |-> <<<<61, 40>>>>]}
+RulesE  == ELen \cup EFld
+           \cup {[op |-> o, args |-> <<x, y>>] : o \in {"and", "or"}, x \in ELenFew, y \in EFldFew}
+           \cup {[op |-> o, args |-> <<y, x>>] : o \in {"and", "or"}, x \in ELenFew, y \in EFldFew}
+EventsE == LET S == SetToSeq({Str(x) : x \in Strs(EChars, 2)} \cup {EscStr(x) : x \in {y \in Strs(EChars, 2) : HasMB(y)}}
+                             \cup {Nul})
+           IN  \* a second field makes the events distinct whatever the spelling of the string
+               [i \in 1..Len(S) |-> Obj(<<Fld("f", S[i]), Fld("g", Num(i))>>)] \o <<Obj(<<Fld("g", Num(0))>>)>>
+
 \* part N: ts_cmp against `now` with value_shift of hours, on event times placed around the moment of the replay
 RulesN == {[op |-> "ts_cmp", path |-> PF, cmp |-> c, value |-> 0, shift |-> sh, now |-> TRUE, upd |-> u, unit |-> "m"] :
              c \in CmpOps, sh \in {-60, 0, 60}, u \in {0, 2}}
 EventsN == SetToSeq(EvOf({NowStr(o) : o \in {-150, -90, -30, 30, 90, 150}}
                          \cup {Abs, Nul, Num(7), Str(<<1>>), Str(<<>>), Obj(<<>>)}))
 
-AllParts == {"F", "R", "L", "P", "T", "T3", "N", "U"}
+AllParts == {"F", "R", "L", "P", "T", "T3", "N", "U", "E"}
 Parts == IF PartsOn = {} THEN AllParts ELSE PartsOn
 RulesOf(p) == CASE p = "F" -> RulesF [] p = "R" -> RulesR [] p = "L" -> RulesL
                 [] p = "P" -> RulesP [] p = "T" -> RulesT [] p = "T3" -> RulesT3 [] p = "N" -> RulesN
-                [] p = "U" -> RulesU
+                [] p = "U" -> RulesU [] p = "E" -> RulesE
 EventsOf(p) == CASE p = "F" -> EventsF [] p = "R" -> EventsR [] p = "L" -> EventsL
                  [] p = "P" -> EventsP [] p = "T" -> EventsT [] p = "T3" -> EventsT3 [] p = "N" -> EventsN
-                 [] p = "U" -> EventsU
+                 [] p = "U" -> EventsU [] p = "E" -> EventsE
 
 -----------------------------------------------------------------------------
 NoRule == [op |-> "none"]
@@ -496,9 +534,10 @@ RuleSeqT == SetToSeq(RulesT)
 RuleSeqT3 == SetToSeq(RulesT3)
 RuleSeqN == SetToSeq(RulesN)
 RuleSeqU == SetToSeq(RulesU)
+RuleSeqE == SetToSeq(RulesE)
 RuleSeqOf(p) == CASE p = "F" -> RuleSeqF [] p = "R" -> RuleSeqR [] p = "L" -> RuleSeqL
                   [] p = "P" -> RuleSeqP [] p = "T" -> RuleSeqT [] p = "T3" -> RuleSeqT3 [] p = "N" -> RuleSeqN
-                  [] p = "U" -> RuleSeqU
+                  [] p = "U" -> RuleSeqU [] p = "E" -> RuleSeqE
 
 Init == cs = [part |-> "-", kind |-> "start", b |-> 0, rule |-> NoRule]
 Next ==
